@@ -304,7 +304,7 @@ PROPS = {
     "C02": {
         "claimed": True,
         "technique": "termination and linear step bounds are TLC invariants of the four machine models (deb822 lexer/parsers, relation lexer/parser, PGP line machine); every behaviour of those models and of the typed-document generator is concretised and fed to EVERY text entry point of the five crates, in isolated workers with a watchdog",
-        "level_text": "StepBound / LossyBound (spec/Deb822.tla), StepBound (spec/Rel.tla) and Terminates (spec/MCPgp.tla) prove on the models that each hand-written machine consumes its input in a linear number of steps and has no bad control point; the behaviours of those models (all deb822 class strings, all relation class strings incl. unterminated groups, generated typed documents with truncations and seeded mutations, PGP line sequences incl. CRLF) are concretised and passed to all 57 entry points (readers of deb822-lossless, debian-control, debian-copyright, dep3, apt-sources; field-level texts also embedded in six document templates); a panic is caught per call, non-termination or memory blow-up by the worker watchdog (20 s of CPU time per call, 6 GiB); repetitive and nested patterns are scaled to 2K-32K repetitions under the same absolute ceiling.",
+        "level_text": "StepBound / LossyBound (spec/Deb822.tla), StepBound (spec/Rel.tla) and Terminates (spec/MCPgp.tla) prove on the models that each hand-written machine consumes its input in a linear number of steps and has no bad control point; the behaviours of those models (all deb822 class strings, all relation class strings incl. unterminated groups, generated typed documents with truncations and seeded mutations, PGP line sequences incl. CRLF) are concretised and passed to all 57 entry points (readers of deb822-lossless, debian-control, debian-copyright, dep3, apt-sources; field-level texts also embedded in six document templates); a panic is caught per call, non-termination or memory blow-up by the worker watchdog (20 s of CPU time per call, 6 GiB); repetitive and nested patterns are scaled to 2K-8K repetitions under the same absolute ceiling.",
         "level_note": "bounded input shapes as in C01/C09/C19/C20; the complexity clause is checked as an absolute time ceiling on scaled inputs, not measured as a polynomial; getters that unwrap a field parse are not entry points",
         "stages": [dict(STRINGS_SMALL, name="ep_deb822", stage="ep_deb822"),
                    dict(REL_STRINGS, name="ep_rel", stage="ep_rel", consts={"quick": {"N": 3, "M": 4, "M2": 4, "M3": 4, "M4": 4}, "thorough": {"N": 4, "M": 6, "M2": 5, "M3": 5, "M4": 5}},
